@@ -92,8 +92,22 @@ func (b Branch) MedianTimeAndWork(ctx context.Context,
 		height--
 	}
 
-	// Sort by time
-	sort.Sort(list)
+	if count == 3 {
+		// The network picks the median of three with exactly these exchanges. Which of two headers
+		// with equal time ends up in the middle matters because their accumulated work differs.
+		if list[0].time > list[2].time {
+			list.Swap(0, 2)
+		}
+		if list[0].time > list[1].time {
+			list.Swap(0, 1)
+		}
+		if list[1].time > list[2].time {
+			list.Swap(1, 2)
+		}
+	} else {
+		// Sort by time
+		sort.Sort(list)
+	}
 
 	// Get values from the middle item in the list.
 	result := list[count/2]
